@@ -89,7 +89,7 @@ def cases(tier, seed):
         for g0, g1 in itertools.product((112, 118, 122, 126), repeat=2):
             for sfx in ("LEAX LB,PCR", "LEAX LA,PCR", "LEAY S4,PCR", "LDD M1,PCR", "LEAX ZNEW,PCR", "BRA S4"):
                 yield {"three": [list(r), g0, g1], "tr": "suffix.pcr", "arg": sfx}
-    for name in ("readme", "xref", "pcr", "strings"):
+    for name in ("readme", "xref", "pcr", "strings", "exprs"):
         for d in SHIFTS:
             yield {"big": name, "tr": "shift", "arg": d}
         for f in FORMATS:
